@@ -3,7 +3,7 @@
    gym, state wrapper) returning the new machine and `res output`.  Only statements; every proof is `exact <lemma>`. *)
 From Coq Require Import ZArith List Bool.
 From GV.Model Require Import Gym.
-From GV.Lemmas Require Import RandL C04L C15L C20L.
+From GV.Lemmas Require Import RandL C04L C15L C20L NonVac.
 Import ListNotations.
 Open Scope Z_scope.
 
@@ -77,3 +77,9 @@ Theorem C20_observation_in_advertised_space : forall k ts cs o, space_ok ts cs -
   Forall (Forall (fun v => within v (advertised (k, ts, cs)))) (or_grid r) /\
   Forall (Forall (fun v => 0 <= v <= 1)) (or_agent_id r) /\ within (or_item r) (advertised (k, ts, cs)).
 Proof. exact gym_obs_in_advertised. Qed.
+
+(* non-vacuity: on the same concrete environment, with a compact state representation and a no-overlap observation representation, the
+   gym machine reaches a state from which a gym step succeeds (the hypotheses of the step / reset specifications are met) *)
+Example C20_nonvacuous : exists g g' out, greachable e0 true g /\ ge_srep g <> None /\ ge_orep g <> None /\
+  Leaf (gstep e0 true g (GStep 0)) (Ok (g', out)) /\ greachable e0 true g' /\ ie_state (ge_inner g') <> None.
+Proof. exact nonvac_C20. Qed.
